@@ -819,6 +819,13 @@ class Explorer:
         B = self.current.opts.get('bounded') if self.current is not None else None
         if B is None:
             return self._discharge(facts_pc, goal, timeout_ms)
+        self._enum_pins = []
+        if self.current.opts.get('bv_enum'):
+            # small bit-vector query: exhaustive evaluation (pyvc/bvenum.py); None = not applicable, use the solver
+            from .bvenum import enum_discharge
+            r = enum_discharge(self, facts_pc, goal, B)
+            if r is not None:
+                return r
         st, secs, backend, smt2 = self._discharge(facts_pc, goal, self.current.opts.get('bounded_try_ms', 3000), fallback=False)
         if st == 'unsat':
             return st, secs, backend, smt2
@@ -946,7 +953,7 @@ class Explorer:
         """bounded standard-model search for a counterexample of an open obligation"""
         from .refute import Concretizer, bounded_model, ghost_values
         g = z3.BoolVal(False) if ob.goal is False else as_z3bool(ob.goal)
-        formulas = list(ob.pc) + [z3.Not(g)]
+        formulas = list(ob.pc) + [z3.Not(g)] + list(getattr(self, '_enum_pins', None) or [])   # bvenum: the point found
         status = 'none'
         for B in (bounds or self.refute_bound):
             try:
